@@ -168,6 +168,30 @@ func LoadAllOrder(w *world.World, parseSeed uint64) (*Loaded, error) {
 	return loadSubset(w, parseSeed, nil)
 }
 
+// GoListOrder returns the files of p in the order both real drivers hand them to an
+// analyzer (go list: GoFiles sorted by name, then TestGoFiles, then XTestGoFiles), whatever
+// order the generator emitted them in. An analysis whose result depends on this order is
+// not thereby driver- or schedule-dependent: no driver named by the properties varies it.
+func GoListOrder(p *world.Pkg) []world.File {
+	out := append([]world.File(nil), p.Files...)
+	rank := func(f world.File) int {
+		switch {
+		case f.Name == world.ExtTestFile:
+			return 2
+		case strings.HasSuffix(f.Name, "_test.go"):
+			return 1
+		}
+		return 0
+	}
+	sort.SliceStable(out, func(i, j int) bool {
+		if ri, rj := rank(out[i]), rank(out[j]); ri != rj {
+			return ri < rj
+		}
+		return out[i].Name < out[j].Name
+	})
+	return out
+}
+
 func loadSubset(w *world.World, parseSeed uint64, need map[int]bool) (*Loaded, error) {
 	l := &Loaded{World: w, Fset: token.NewFileSet(), Disk: Disk(w), ReadFaults: WorldFaults(w)}
 	// parse everything first, in the seeded order
@@ -221,7 +245,7 @@ func loadSubset(w *world.World, parseSeed uint64, need map[int]bool) (*Loaded, e
 			if variant {
 				lp.ID = fmt.Sprintf("%s [%s.test]", p.Path, p.Path)
 			}
-			for _, f := range p.Files {
+			for _, f := range GoListOrder(p) {
 				if f.Name == world.ExtTestFile || (strings.HasSuffix(f.Name, "_test.go") && !variant) {
 					continue
 				}
@@ -259,7 +283,7 @@ func loadSubset(w *world.World, parseSeed uint64, need map[int]bool) (*Loaded, e
 				base = l.Test[i]
 			}
 			xp := &LPkg{ID: fmt.Sprintf("%s_test [%s.test]", p.Path, p.Path), Path: p.Path + "_test", Name: p.Name + "_test", Index: i, TestVar: true, Imports: map[string]*LPkg{}, Info: newInfo()}
-			for _, f := range p.Files {
+			for _, f := range GoListOrder(p) {
 				if f.Name == world.ExtTestFile {
 					name := FileName(w, p, f)
 					xp.Files = append(xp.Files, parsed[name])
